@@ -1,12 +1,1437 @@
-//! Component `quant`: protocol runner (real code), case generator, implementation-level oracles.
-//! (stub; owned by the component's author)
+//! Component `quant` (float-derived entropy models): protocol runner (real code), case
+//! generator, implementation-level oracles.
+//!
+//! Protocol (see `lean/CV/Driver/Quant.lean` for the Lean twin):
+//! ```text
+//! quant.fast    <ctor> <f32|f64> <B> <P> <norm|-> <tbl>           ctor: cont ncenc ncdec lkc lknc
+//! quant.perfect <f32|f64> <B> <P> <tbl> <weights>
+//! quant.lazy    <f32|f64> <B> <P> <norm|-> <tbl> | enc s | dec q | table | sweep lo hi stride
+//! quant.new     <sym> <B> <P> <min> <max>
+//! quant.leaky   <sym> <B> <P> <min> <max> <hint> <dist…> | full rec | enc s rec | dec q inv rec
+//!                                                          | table rec | sweep lo hi stride
+//! ```
 #![allow(unused)]
+use std::cell::RefCell;
+use std::fmt::Debug;
+
+use constriction::stream::model::{
+    ContiguousCategoricalEntropyModel, ContiguousLookupDecoderModel, DecoderModel, EncoderModel,
+    EntropyModel, IterableEntropyModel, LazyContiguousCategoricalEntropyModel,
+    LeakilyQuantizedDistribution, LeakyQuantizer, NonContiguousCategoricalDecoderModel,
+    NonContiguousCategoricalEncoderModel, NonContiguousLookupDecoderModel,
+};
+use constriction::{BitArray, NonZeroBitArray};
+use num_traits::float::FloatCore;
+use num_traits::{AsPrimitive, PrimInt, WrappingAdd, WrappingSub};
+use probability::distribution::{Binomial, Cauchy, Distribution, Gaussian, Inverse, Laplace};
+
 use crate::util::*;
 
-pub fn run(_segs: &[Vec<&str>]) -> String {
-    "bad-op".into()
+// ---------------------------------------------------------------------------------------
+// small helpers
+
+pub trait Fl:
+    FloatCore + core::iter::Sum<Self> + Into<f64> + Debug + 'static + num_traits::Float
+{
+    const NAME: &'static str;
+    fn from_bits_u(b: u128) -> Self;
+    fn bits_u(self) -> u128;
+}
+impl Fl for f32 {
+    const NAME: &'static str = "f32";
+    fn from_bits_u(b: u128) -> Self {
+        f32::from_bits(b as u32)
+    }
+    fn bits_u(self) -> u128 {
+        self.to_bits() as u128
+    }
+}
+impl Fl for f64 {
+    const NAME: &'static str = "f64";
+    fn from_bits_u(b: u128) -> Self {
+        f64::from_bits(b as u64)
+    }
+    fn bits_u(self) -> u128 {
+        self.to_bits() as u128
+    }
 }
 
-pub fn gen(_rng: &mut Rng, _tier: &str, _out: &mut Vec<String>) {}
+type Triple = (u128, u128, u128);
+
+fn show_triples(t: &[Triple]) -> String {
+    if t.is_empty() {
+        return "-".into();
+    }
+    t.iter()
+        .map(|(s, c, p)| format!("{:x}:{:x}:{:x}", s, c, p))
+        .collect::<Vec<_>>()
+        .join(",")
+}
+
+/// C03-validity of a symbol table at precision `p`: in-order tiling of `[0, 2^p)` by non-empty
+/// intervals, at least two symbols
+fn table_valid(p: u32, t: &[Triple]) -> bool {
+    let total = 1u128 << p;
+    let mut expect = 0u128;
+    for &(_, c, pr) in t {
+        if c != expect || pr == 0 || pr >= total {
+            return false;
+        }
+        expect = c + pr;
+    }
+    t.len() >= 2 && expect == total
+}
+
+fn b01(b: bool) -> &'static str {
+    if b {
+        "1"
+    } else {
+        "0"
+    }
+}
+
+fn parse_opt_hex(s: &str) -> Option<Option<u128>> {
+    if s == "-" {
+        Some(None)
+    } else {
+        parse_hex(s).map(Some)
+    }
+}
+
+// ---------------------------------------------------------------------------------------
+// fast / lazy / perfect
+
+fn fast_line<F, Pr, const P: usize>(ctor: &str, tbl: &[u128], norm: Option<u128>) -> String
+where
+    F: Fl + AsPrimitive<Pr>,
+    Pr: BitArray + AsPrimitive<usize>,
+    usize: AsPrimitive<Pr> + AsPrimitive<F>,
+{
+    let probs: Vec<F> = tbl.iter().map(|&b| F::from_bits_u(b)).collect();
+    let norm = norm.map(F::from_bits_u);
+    let n = probs.len();
+    let table: Vec<Triple> = match ctor {
+        "cont" => {
+            match ContiguousCategoricalEntropyModel::<Pr, Vec<Pr>, P>::from_floating_point_probabilities_fast(&probs, norm) {
+                Err(()) => return "rejected".into(),
+                Ok(m) => m
+                    .symbol_table()
+                    .map(|(s, c, p)| (s as u128, to_u128(c), to_u128(p.get())))
+                    .collect(),
+            }
+        }
+        "ncenc" => {
+            match NonContiguousCategoricalEncoderModel::<usize, Pr, P>::from_symbols_and_floating_point_probabilities_fast(0..n, &probs, norm) {
+                Err(()) => return "rejected".into(),
+                Ok(m) => {
+                    let mut t: Vec<Triple> = (0..n)
+                        .filter_map(|s| {
+                            m.left_cumulative_and_probability(s)
+                                .map(|(c, p)| (s as u128, to_u128(c), to_u128(p.get())))
+                        })
+                        .collect();
+                    t.sort_by_key(|x| x.1);
+                    t
+                }
+            }
+        }
+        "ncdec" => {
+            match NonContiguousCategoricalDecoderModel::<usize, Pr, Vec<(Pr, usize)>, P>::from_symbols_and_floating_point_probabilities_fast(0..n, &probs, norm) {
+                Err(()) => return "rejected".into(),
+                Ok(m) => m
+                    .symbol_table()
+                    .map(|(s, c, p)| (s as u128, to_u128(c), to_u128(p.get())))
+                    .collect(),
+            }
+        }
+        _ => return "bad-op".into(),
+    };
+    format!("ok {} mono=1 valid={}", show_triples(&table), b01(table_valid(P as u32, &table)))
+}
+
+fn fast_lookup_line<F, Pr, const P: usize>(ctor: &str, tbl: &[u128], norm: Option<u128>) -> String
+where
+    F: Fl + AsPrimitive<Pr>,
+    Pr: BitArray + AsPrimitive<usize> + Into<usize>,
+    usize: AsPrimitive<Pr> + AsPrimitive<F>,
+    f64: AsPrimitive<Pr>,
+{
+    let probs: Vec<F> = tbl.iter().map(|&b| F::from_bits_u(b)).collect();
+    let norm = norm.map(F::from_bits_u);
+    let n = probs.len();
+    let table: Vec<Triple> = match ctor {
+        "lkc" => {
+            match ContiguousLookupDecoderModel::<Pr, Vec<Pr>, Box<[Pr]>, P>::from_floating_point_probabilities_fast(&probs, norm) {
+                Err(()) => return "rejected".into(),
+                Ok(m) => m
+                    .symbol_table()
+                    .map(|(s, c, p)| (s as u128, to_u128(c), to_u128(p.get())))
+                    .collect(),
+            }
+        }
+        "lknc" => {
+            match NonContiguousLookupDecoderModel::<usize, Pr, Vec<(Pr, usize)>, Box<[Pr]>, P>::from_symbols_and_floating_point_probabilities_fast(0..n, &probs, norm) {
+                Err(()) => return "rejected".into(),
+                Ok(m) => m
+                    .symbol_table()
+                    .map(|(s, c, p)| (s as u128, to_u128(c), to_u128(p.get())))
+                    .collect(),
+            }
+        }
+        _ => return "bad-op".into(),
+    };
+    format!("ok {} mono=1 valid={}", show_triples(&table), b01(table_valid(P as u32, &table)))
+}
+
+/// weights produced by the `…_perfect` constructor (`None` = rejected)
+fn perfect_weights<F, Pr, const P: usize>(tbl: &[u128]) -> Option<Vec<u128>>
+where
+    F: Fl,
+    Pr: BitArray + Into<f64> + AsPrimitive<usize>,
+    f64: AsPrimitive<Pr>,
+    usize: AsPrimitive<Pr>,
+{
+    let probs: Vec<F> = tbl.iter().map(|&b| F::from_bits_u(b)).collect();
+    match ContiguousCategoricalEntropyModel::<Pr, Vec<Pr>, P>::from_floating_point_probabilities_perfect(&probs) {
+        Err(()) => None,
+        Ok(m) => Some(m.symbol_table().map(|(_, _, p)| to_u128(p.get())).collect()),
+    }
+}
+
+fn perfect_line<F, Pr, const P: usize>(tbl: &[u128], w: &[u128]) -> String
+where
+    F: Fl,
+    Pr: BitArray + Into<f64> + AsPrimitive<usize>,
+    f64: AsPrimitive<Pr>,
+    usize: AsPrimitive<Pr>,
+{
+    match perfect_weights::<F, Pr, P>(tbl) {
+        None => "rejected".into(),
+        Some(v) => {
+            if v == w {
+                "ok valid".into()
+            } else {
+                "ok changed".into()
+            }
+        }
+    }
+}
+
+#[derive(Clone, Debug)]
+enum LazyOp {
+    Enc(u128),
+    Dec(u128),
+    Table,
+    Sweep(u128, u128, u128),
+}
+
+fn parse_lazy_op(seg: &[&str]) -> Option<LazyOp> {
+    Some(match seg {
+        ["enc", s] => LazyOp::Enc(parse_hex(s)?),
+        ["dec", q] => LazyOp::Dec(parse_hex(q)?),
+        ["table"] => LazyOp::Table,
+        ["sweep", lo, hi, st] => LazyOp::Sweep(parse_hex(lo)?, parse_hex(hi)?, parse_hex(st)?),
+        _ => return None,
+    })
+}
+
+fn lazy_line<F, Pr, const P: usize>(tbl: &[u128], norm: Option<u128>, ops: &[Option<LazyOp>]) -> String
+where
+    F: Fl + AsPrimitive<Pr>,
+    Pr: BitArray + AsPrimitive<usize> + AsPrimitive<F>,
+    usize: AsPrimitive<Pr> + AsPrimitive<F>,
+{
+    let probs: Vec<F> = tbl.iter().map(|&b| F::from_bits_u(b)).collect();
+    let norm = norm.map(F::from_bits_u);
+    let m = match LazyContiguousCategoricalEntropyModel::<Pr, F, _, P>::from_floating_point_probabilities_fast(&probs[..], norm) {
+        Err(()) => return "rejected".into(),
+        Ok(m) => m,
+    };
+    let mut outs = vec!["ok mono=1".to_string()];
+    let bmax = if Pr::BITS >= 128 { u128::MAX } else { (1u128 << Pr::BITS) - 1 };
+    for op in ops {
+        let r = guarded(|| -> Option<String> {
+            Some(match op.as_ref()? {
+                LazyOp::Enc(s) => {
+                    if *s > usize::MAX as u128 {
+                        return None;
+                    }
+                    match m.left_cumulative_and_probability(*s as usize) {
+                        None => "none".into(),
+                        Some((c, p)) => format!("{:x} {:x}", to_u128(c), to_u128(p.get())),
+                    }
+                }
+                LazyOp::Dec(q) => {
+                    if *q > bmax {
+                        return None;
+                    }
+                    let (s, c, p) = m.quantile_function(from_u128(*q));
+                    format!("{:x} {:x} {:x} tbf2=1", s, to_u128(c), to_u128(p.get()))
+                }
+                LazyOp::Table => {
+                    let mut t = Vec::new();
+                    for s in 0..probs.len() {
+                        match m.left_cumulative_and_probability(s) {
+                            None => return Some("none".into()),
+                            Some((c, p)) => t.push((s as u128, to_u128(c), to_u128(p.get()))),
+                        }
+                    }
+                    show_triples(&t)
+                }
+                LazyOp::Sweep(lo, hi, stride) => {
+                    if *stride == 0 || *hi > bmax {
+                        return None;
+                    }
+                    let mut q = *lo;
+                    let mut cnt = 0u128;
+                    let mut dg = DIGEST_INIT;
+                    while q <= *hi {
+                        let (s, c, p) = m.quantile_function(from_u128(q));
+                        dg = digest_step(dg, s as u128);
+                        dg = digest_step(dg, to_u128(c));
+                        dg = digest_step(dg, to_u128(p.get()));
+                        cnt += 1;
+                        q += *stride;
+                    }
+                    format!("{:x} {:x}", cnt, dg)
+                }
+            })
+        });
+        match r {
+            Ok(Some(s)) => outs.push(s),
+            Ok(None) => {
+                outs.push("bad-op".into());
+                break;
+            }
+            Err(class) => {
+                outs.push(class.into());
+                break;
+            }
+        }
+    }
+    outs.join(" | ")
+}
+
+macro_rules! gen_dispatch {
+    ($name:ident, $func:ident, ($($sig:tt)*) $call:tt -> $ret:ty, [$(($F:ty, $Pr:ty, $P:literal)),* $(,)?]) => {
+        fn $name(f: &str, b: u32, p: u32, $($sig)*) -> Option<$ret> {
+            $( if f == <$F as Fl>::NAME && b == <$Pr>::BITS as u32 && p == $P {
+                return Some($func::<$F, $Pr, $P> $call);
+            } )*
+            None
+        }
+    };
+}
+
+macro_rules! fp_combos {
+    ($($head:tt)*) => {
+        gen_dispatch!($($head)*, [
+            (f32, u8, 1), (f32, u8, 2), (f32, u8, 3), (f32, u8, 8),
+            (f32, u16, 1), (f32, u16, 8), (f32, u16, 12), (f32, u16, 15), (f32, u16, 16),
+            (f32, u32, 12), (f32, u32, 24), (f32, u32, 31), (f32, u32, 32),
+            (f32, u64, 32), (f32, u64, 63), (f32, u64, 64),
+            (f64, u8, 1), (f64, u8, 2), (f64, u8, 3), (f64, u8, 8),
+            (f64, u16, 1), (f64, u16, 8), (f64, u16, 12), (f64, u16, 15), (f64, u16, 16),
+            (f64, u32, 12), (f64, u32, 24), (f64, u32, 31), (f64, u32, 32),
+            (f64, u64, 32), (f64, u64, 63), (f64, u64, 64),
+        ]);
+    };
+}
+pub const FP_BP: &[(u32, &[u32])] = &[(8, &[1, 2, 3, 8]), (16, &[1, 8, 12, 15, 16]), (32, &[12, 24, 31, 32]), (64, &[32, 63, 64])];
+
+macro_rules! lookup_combos {
+    ($($head:tt)*) => {
+        gen_dispatch!($($head)*, [
+            (f32, u8, 1), (f32, u8, 3), (f32, u8, 8), (f32, u16, 8), (f32, u16, 12), (f32, u16, 16),
+            (f64, u8, 1), (f64, u8, 3), (f64, u8, 8), (f64, u16, 8), (f64, u16, 12), (f64, u16, 16),
+        ]);
+    };
+}
+pub const LOOKUP_BP: &[(u32, &[u32])] = &[(8, &[1, 3, 8]), (16, &[8, 12, 16])];
+
+macro_rules! perfect_combos {
+    ($($head:tt)*) => {
+        gen_dispatch!($($head)*, [
+            (f32, u8, 3), (f32, u8, 8), (f32, u16, 12), (f32, u16, 16), (f32, u32, 24), (f32, u32, 32),
+            (f64, u8, 3), (f64, u8, 8), (f64, u16, 12), (f64, u16, 16), (f64, u32, 24), (f64, u32, 32),
+        ]);
+    };
+}
+pub const PERFECT_BP: &[(u32, &[u32])] = &[(8, &[3, 8]), (16, &[12, 16]), (32, &[24, 32])];
+
+fp_combos!(dispatch_fast, fast_line, (ctor: &str, tbl: &[u128], norm: Option<u128>) (ctor, tbl, norm) -> String);
+lookup_combos!(dispatch_fast_lookup, fast_lookup_line, (ctor: &str, tbl: &[u128], norm: Option<u128>) (ctor, tbl, norm) -> String);
+fp_combos!(dispatch_lazy, lazy_line, (tbl: &[u128], norm: Option<u128>, ops: &[Option<LazyOp>]) (tbl, norm, ops) -> String);
+perfect_combos!(dispatch_perfect, perfect_line, (tbl: &[u128], w: &[u128]) (tbl, w) -> String);
+perfect_combos!(dispatch_perfect_weights, perfect_weights, (tbl: &[u128]) (tbl) -> Option<Vec<u128>>);
+
+// ---------------------------------------------------------------------------------------
+// leaky quantizer: distributions with recording
+
+#[derive(Clone, Debug)]
+pub enum Base {
+    Gauss(f64, f64),
+    Cauchy(f64, f64),
+    Laplace(f64, f64),
+    /// step-shaped CDF: `cdf(x) = cs[#{i : xs[i] <= x}]` (`cs.len() == xs.len() + 1`)
+    Step(Vec<f64>, Vec<f64>),
+    Binom(usize, f64),
+}
+
+enum Built {
+    Gauss(Gaussian),
+    Cauchy(Cauchy),
+    Laplace(Laplace),
+    Step(Vec<f64>, Vec<f64>),
+    Binom(Binomial),
+}
+
+impl Base {
+    fn build(&self) -> Built {
+        match self {
+            Base::Gauss(a, b) => Built::Gauss(Gaussian::new(*a, *b)),
+            Base::Cauchy(a, b) => Built::Cauchy(Cauchy::new(*a, *b)),
+            Base::Laplace(a, b) => Built::Laplace(Laplace::new(*a, *b)),
+            Base::Step(x, c) => Built::Step(x.clone(), c.clone()),
+            Base::Binom(n, p) => Built::Binom(Binomial::new(*n, *p)),
+        }
+    }
+    fn is_u(&self) -> bool {
+        matches!(self, Base::Binom(..))
+    }
+    fn tokens(&self) -> String {
+        let fl = |v: &Vec<f64>| show_list(v.iter().map(|x| x.to_bits() as u128));
+        match self {
+            Base::Gauss(a, b) => format!("gauss {:x} {:x}", a.to_bits(), b.to_bits()),
+            Base::Cauchy(a, b) => format!("cauchy {:x} {:x}", a.to_bits(), b.to_bits()),
+            Base::Laplace(a, b) => format!("laplace {:x} {:x}", a.to_bits(), b.to_bits()),
+            Base::Step(x, c) => format!("step {} {}", fl(x), fl(c)),
+            Base::Binom(n, p) => format!("binom {:x} {:x}", n, p.to_bits()),
+        }
+    }
+    fn parse(t: &[&str]) -> Option<Base> {
+        let f = |s: &str| parse_hex(s).map(|b| f64::from_bits(b as u64));
+        let fl = |s: &str| parse_list(s).map(|v| v.iter().map(|&b| f64::from_bits(b as u64)).collect::<Vec<_>>());
+        Some(match t {
+            ["gauss", a, b] => Base::Gauss(f(a)?, f(b)?),
+            ["cauchy", a, b] => Base::Cauchy(f(a)?, f(b)?),
+            ["laplace", a, b] => Base::Laplace(f(a)?, f(b)?),
+            ["step", x, c] => Base::Step(fl(x)?, fl(c)?),
+            ["binom", n, p] => Base::Binom(parse_hex(n)? as usize, f(p)?),
+            _ => return None,
+        })
+    }
+}
+
+impl Built {
+    fn cdf(&self, x: f64) -> f64 {
+        match self {
+            Built::Gauss(d) => d.distribution(x),
+            Built::Cauchy(d) => d.distribution(x),
+            Built::Laplace(d) => d.distribution(x),
+            Built::Step(xs, cs) => cs[xs.iter().take_while(|&&b| b <= x).count()],
+            Built::Binom(d) => d.distribution(x),
+        }
+    }
+    fn inv_f(&self, p: f64) -> f64 {
+        match self {
+            Built::Gauss(d) => d.inverse(p),
+            Built::Cauchy(d) => d.inverse(p),
+            Built::Laplace(d) => d.inverse(p),
+            Built::Step(xs, cs) => {
+                let k = cs.iter().take_while(|&&c| c < p).count();
+                if xs.is_empty() {
+                    0.0
+                } else if k == 0 {
+                    xs[0] - 1.0
+                } else {
+                    xs[(k - 1).min(xs.len() - 1)]
+                }
+            }
+            Built::Binom(d) => d.inverse(p) as f64,
+        }
+    }
+    fn inv_u(&self, p: f64) -> usize {
+        match self {
+            Built::Binom(d) => d.inverse(p),
+            _ => 0,
+        }
+    }
+}
+
+#[derive(Clone, Copy, Debug)]
+pub enum HintMode {
+    True,
+    /// true inverse plus a deterministic pseudo-random error of magnitude up to `scale`
+    Noisy(u64, f64),
+    ConstF(f64),
+    ConstU(usize),
+}
+
+impl HintMode {
+    /// the `<hint>` header token and the trailing mode tokens
+    fn tokens(&self) -> (String, String) {
+        match self {
+            HintMode::True => ("rec".into(), "true".into()),
+            HintMode::Noisy(seed, sc) => ("rec".into(), format!("noisy {:x} {:x}", seed, sc.to_bits())),
+            HintMode::ConstF(v) => (format!("f:{:x}", v.to_bits()), "const".into()),
+            HintMode::ConstU(v) => (format!("u:{:x}", v), "const".into()),
+        }
+    }
+    fn parse(hint: &str, tail: &[&str]) -> Option<HintMode> {
+        if hint == "rec" {
+            match tail {
+                ["true"] => Some(HintMode::True),
+                ["noisy", s, sc] => Some(HintMode::Noisy(parse_hex(s)? as u64, f64::from_bits(parse_hex(sc)? as u64))),
+                _ => None,
+            }
+        } else {
+            let (k, v) = hint.split_once(':')?;
+            let v = parse_hex(v)?;
+            match k {
+                "f" => Some(HintMode::ConstF(f64::from_bits(v as u64))),
+                "u" => Some(HintMode::ConstU(v as usize)),
+                _ => None,
+            }
+        }
+    }
+    fn is_const(&self) -> bool {
+        matches!(self, HintMode::ConstF(_) | HintMode::ConstU(_))
+    }
+}
+
+fn noise(seed: u64, pbits: u64, scale: f64) -> f64 {
+    let mut r = Rng(seed ^ pbits.wrapping_mul(0x9e37_79b9_7f4a_7c15));
+    let u = (r.next() >> 11) as f64 / (1u64 << 53) as f64; // [0,1)
+    (2.0 * u - 1.0) * scale
+}
+
+type RecCdf = RefCell<Vec<(u64, u64)>>;
+type RecInv = RefCell<Vec<(u64, char, u64)>>;
+
+/// `Distribution<Value = f64>` with recording of all external calls
+#[derive(Clone, Copy)]
+struct RecF<'a> {
+    d: &'a Built,
+    hint: HintMode,
+    rec: &'a RecCdf,
+    inv: &'a RecInv,
+}
+impl<'a> Distribution for RecF<'a> {
+    type Value = f64;
+    fn distribution(&self, x: f64) -> f64 {
+        let c = self.d.cdf(x);
+        self.rec.borrow_mut().push((x.to_bits(), c.to_bits()));
+        c
+    }
+}
+impl<'a> Inverse for RecF<'a> {
+    fn inverse(&self, p: f64) -> f64 {
+        let v = match self.hint {
+            HintMode::True => self.d.inv_f(p),
+            HintMode::Noisy(seed, sc) => self.d.inv_f(p) + noise(seed, p.to_bits(), sc),
+            HintMode::ConstF(v) => v,
+            HintMode::ConstU(v) => v as f64,
+        };
+        self.inv.borrow_mut().push((p.to_bits(), 'f', v.to_bits()));
+        v
+    }
+}
+
+/// `Distribution<Value = usize>` (the `Binomial` path: `usize as Symbol` wraps)
+#[derive(Clone, Copy)]
+struct RecU<'a> {
+    d: &'a Built,
+    hint: HintMode,
+    rec: &'a RecCdf,
+    inv: &'a RecInv,
+}
+impl<'a> Distribution for RecU<'a> {
+    type Value = usize;
+    fn distribution(&self, x: f64) -> f64 {
+        let c = self.d.cdf(x);
+        self.rec.borrow_mut().push((x.to_bits(), c.to_bits()));
+        c
+    }
+}
+impl<'a> Inverse for RecU<'a> {
+    fn inverse(&self, p: f64) -> usize {
+        let v = match self.hint {
+            HintMode::True => self.d.inv_u(p),
+            HintMode::Noisy(seed, sc) => (self.d.inv_u(p) as f64 + noise(seed, p.to_bits(), sc)) as usize,
+            HintMode::ConstF(v) => v as usize,
+            HintMode::ConstU(v) => v,
+        };
+        self.inv.borrow_mut().push((p.to_bits(), 'u', v as u64));
+        v
+    }
+}
+
+#[derive(Clone, Debug)]
+pub enum LOp {
+    Full,
+    Enc(i128),
+    Dec(u128),
+    Table,
+    Sweep(u128, u128, u128),
+}
+
+#[derive(Clone, Debug)]
+pub struct LeakySpec {
+    pub sym: &'static str,
+    pub b: u32,
+    pub p: u32,
+    pub min: i128,
+    pub max: i128,
+    pub base: Base,
+    pub hint: HintMode,
+}
+
+pub fn sym_bits(sym: &str) -> Option<(u32, bool)> {
+    Some(match sym {
+        "u8" => (8, false),
+        "i8" => (8, true),
+        "u16" => (16, false),
+        "i16" => (16, true),
+        "u32" => (32, false),
+        "i32" => (32, true),
+        "u64" => (64, false),
+        "i64" => (64, true),
+        _ => return None,
+    })
+}
+fn sym_static(sym: &str) -> Option<&'static str> {
+    ["u8", "i8", "u16", "i16", "u32", "i32", "u64", "i64"].iter().copied().find(|s| *s == sym)
+}
+pub fn sym_range(sym: &str) -> (i128, i128) {
+    let (bits, signed) = sym_bits(sym).unwrap();
+    if signed {
+        (-(1i128 << (bits - 1)), (1i128 << (bits - 1)) - 1)
+    } else {
+        (0, (1i128 << bits) - 1)
+    }
+}
+pub fn sym_hex(sym: &str, v: i128) -> String {
+    let (bits, _) = sym_bits(sym).unwrap();
+    format!("{:x}", (v as u128) & ((1u128 << bits) - 1))
+}
+pub fn parse_sym(sym: &str, s: &str) -> Option<i128> {
+    let (bits, signed) = sym_bits(sym)?;
+    let v = parse_hex(s)?;
+    if v >= 1u128 << bits {
+        return None;
+    }
+    Some(if signed && v >= 1u128 << (bits - 1) { v as i128 - (1i128 << bits) } else { v as i128 })
+}
+
+fn show_rec(rec: &[(u64, u64)]) -> String {
+    if rec.is_empty() {
+        return "-".into();
+    }
+    let mut v = rec.to_vec();
+    v.sort();
+    v.dedup();
+    v.iter().map(|(x, c)| format!("{:x}:{:x}", x, c)).collect::<Vec<_>>().join(",")
+}
+
+fn free_weight_of<T: Debug>(q: &T) -> u128 {
+    let s = format!("{:?}", q);
+    let i = s.find("free_weight: ").expect("Debug of LeakyQuantizer") + "free_weight: ".len();
+    let rest = &s[i..];
+    let end = rest.find(|c: char| c == ',' || c == ' ' || c == '}').unwrap_or(rest.len());
+    rest[..end].parse::<f64>().expect("free_weight") as u128
+}
+
+/// Executes a leaky-quantizer line on the real code.  Returns the init output and, per op,
+/// `(output, recorded-argument tokens for the protocol line)`; stops after a panic.
+fn leaky_exec_d<S, Pr, const P: usize, D, MK>(spec: &LeakySpec, built: &Built, ops: &[Option<LOp>], mk: MK, rec: &RecCdf, inv: &RecInv) -> (String, Vec<(String, String)>)
+where
+    S: PrimInt + AsPrimitive<Pr> + AsPrimitive<usize> + Into<f64> + WrappingSub + WrappingAdd + Debug + 'static,
+    Pr: BitArray + Into<f64>,
+    f64: AsPrimitive<Pr>,
+    D: Inverse + Copy,
+    D::Value: AsPrimitive<S>,
+    MK: Fn() -> D,
+{
+    let (tlo, thi) = sym_range(spec.sym);
+    if spec.min < tlo || spec.min > thi || spec.max < tlo || spec.max > thi {
+        return ("bad-op".into(), vec![]);
+    }
+    let to_s = |v: i128| -> S { <S as num_traits::NumCast>::from(v).unwrap() };
+    let quantizer = match guarded(|| LeakyQuantizer::<f64, S, Pr, P>::new(to_s(spec.min)..=to_s(spec.max))) {
+        Ok(q) => q,
+        Err(class) => return (class.into(), vec![]),
+    };
+    let free = free_weight_of(&quantizer);
+    let init = format!("ok {:x}", free);
+    let model = quantizer.quantize(mk());
+    let bmax = (1u128 << Pr::BITS) - 1;
+    let mut outs = Vec::new();
+    for op in ops {
+        rec.borrow_mut().clear();
+        inv.borrow_mut().clear();
+        let r = guarded(|| -> Option<(String, String)> {
+            Some(match op.as_ref()? {
+                LOp::Full => {
+                    // the complete table of recorded values, and the certificate evaluated
+                    // independently of the model: g(s) = (free * cdf(s - 0.5)) as Pr
+                    let mut all = Vec::new();
+                    let (mut mono, mut bound) = (true, true);
+                    let mut prev = 0u128;
+                    let mut s = spec.min + 1;
+                    while s <= spec.max {
+                        let x = s as f64 - 0.5;
+                        let c = built.cdf(x);
+                        all.push((x.to_bits(), c.to_bits()));
+                        let g: Pr = (free as f64 * c).as_();
+                        let g = to_u128(g);
+                        mono &= prev <= g;
+                        bound &= g <= free;
+                        prev = g;
+                        s += 1;
+                    }
+                    (format!("ok mono={} bound={}", b01(mono), b01(bound)), show_rec(&all))
+                }
+                LOp::Enc(s) => {
+                    if *s < tlo || *s > thi {
+                        return None;
+                    }
+                    let out = match model.left_cumulative_and_probability(to_s(*s)) {
+                        None => "none".to_string(),
+                        Some((c, p)) => format!("{:x} {:x}", to_u128(c), to_u128(p.get())),
+                    };
+                    (out, show_rec(&rec.borrow()))
+                }
+                LOp::Dec(q) => {
+                    if *q > bmax {
+                        return None;
+                    }
+                    let (s, c, p) = model.quantile_function(from_u128(*q));
+                    let invtok = if spec.hint.is_const() {
+                        "-".to_string()
+                    } else {
+                        let i = inv.borrow();
+                        let (a, k, v) = i[0];
+                        format!("{:x}:{}:{:x}", a, k, v)
+                    };
+                    (
+                        format!("{} {:x} {:x}", sym_hex(spec.sym, s.to_i128().unwrap()), to_u128(c), to_u128(p.get())),
+                        format!("{} {}", invtok, show_rec(&rec.borrow())),
+                    )
+                }
+                LOp::Table => {
+                    let t: Vec<String> = model
+                        .symbol_table()
+                        .map(|(s, c, p)| format!("{}:{:x}:{:x}", sym_hex(spec.sym, s.to_i128().unwrap()), to_u128(c), to_u128(p.get())))
+                        .collect();
+                    (if t.is_empty() { "-".into() } else { t.join(",") }, show_rec(&rec.borrow()))
+                }
+                LOp::Sweep(lo, hi, stride) => {
+                    if *stride == 0 || *hi > bmax || !spec.hint.is_const() {
+                        return None;
+                    }
+                    let mut q = *lo;
+                    let mut cnt = 0u128;
+                    let mut dg = DIGEST_INIT;
+                    let mask = (1u128 << sym_bits(spec.sym).unwrap().0) - 1;
+                    while q <= *hi {
+                        let (s, c, p) = model.quantile_function(from_u128(q));
+                        dg = digest_step(dg, (s.to_i128().unwrap() as u128) & mask);
+                        dg = digest_step(dg, to_u128(c));
+                        dg = digest_step(dg, to_u128(p.get()));
+                        cnt += 1;
+                        q += *stride;
+                        rec.borrow_mut().clear();
+                        inv.borrow_mut().clear();
+                    }
+                    (format!("{:x} {:x}", cnt, dg), String::new())
+                }
+            })
+        });
+        match r {
+            Ok(Some(x)) => outs.push(x),
+            Ok(None) => {
+                outs.push(("bad-op".into(), String::new()));
+                break;
+            }
+            Err(class) => {
+                // the recorded values up to the panic are still needed by the model
+                let invtok = if spec.hint.is_const() {
+                    "-".to_string()
+                } else {
+                    inv.borrow().first().map(|(a, k, v)| format!("{:x}:{}:{:x}", a, k, v)).unwrap_or("-".into())
+                };
+                let toks = match op {
+                    Some(LOp::Dec(_)) => format!("{} {}", invtok, show_rec(&rec.borrow())),
+                    _ => show_rec(&rec.borrow()),
+                };
+                outs.push((class.into(), toks));
+                break;
+            }
+        }
+    }
+    (init, outs)
+}
+
+fn leaky_exec<S, Pr, const P: usize>(spec: &LeakySpec, ops: &[Option<LOp>]) -> (String, Vec<(String, String)>)
+where
+    S: PrimInt + AsPrimitive<Pr> + AsPrimitive<usize> + Into<f64> + WrappingSub + WrappingAdd + Debug + 'static,
+    Pr: BitArray + Into<f64>,
+    f64: AsPrimitive<Pr> + AsPrimitive<S>,
+    usize: AsPrimitive<S>,
+{
+    let built = spec.base.build();
+    let rec: RecCdf = RefCell::new(Vec::new());
+    let inv: RecInv = RefCell::new(Vec::new());
+    if spec.base.is_u() {
+        leaky_exec_d::<S, Pr, P, _, _>(spec, &built, ops, || RecU { d: &built, hint: spec.hint, rec: &rec, inv: &inv }, &rec, &inv)
+    } else {
+        leaky_exec_d::<S, Pr, P, _, _>(spec, &built, ops, || RecF { d: &built, hint: spec.hint, rec: &rec, inv: &inv }, &rec, &inv)
+    }
+}
+
+macro_rules! leaky_dispatch {
+    ([$(($S:ty, $ss:literal)),*], $bp:tt) => {
+        fn dispatch_leaky(spec: &LeakySpec, ops: &[Option<LOp>]) -> Option<(String, Vec<(String, String)>)> {
+            $( if spec.sym == $ss { return leaky_dispatch!(@bp $S, spec, ops, $bp); } )*
+            None
+        }
+    };
+    (@bp $S:ty, $spec:ident, $ops:ident, [$(($Pr:ty, $P:literal)),*]) => {{
+        $( if $spec.b == <$Pr>::BITS as u32 && $spec.p == $P { return Some(leaky_exec::<$S, $Pr, $P>($spec, $ops)); } )*
+        None
+    }};
+}
+leaky_dispatch!(
+    [(u8, "u8"), (i8, "i8"), (u16, "u16"), (i16, "i16"), (u32, "u32"), (i32, "i32")],
+    [(u8, 1), (u8, 4), (u8, 8), (u16, 8), (u16, 12), (u16, 16), (u32, 12), (u32, 24), (u32, 32)]
+);
+pub const LEAKY_BP: &[(u32, &[u32])] = &[(8, &[1, 4, 8]), (16, &[8, 12, 16]), (32, &[12, 24, 32])];
+pub const LEAKY_SYMS: &[&str] = &["u8", "i8", "u16", "i16", "u32", "i32"];
+
+fn new_impl<S, Pr, const P: usize>(min: i128, max: i128) -> String
+where
+    S: PrimInt + AsPrimitive<Pr> + WrappingSub + WrappingAdd + Debug + 'static,
+    Pr: BitArray + Into<f64>,
+{
+    let to_s = |v: i128| -> S { <S as num_traits::NumCast>::from(v).unwrap() };
+    match guarded(|| LeakyQuantizer::<f64, S, Pr, P>::new(to_s(min)..=to_s(max))) {
+        Ok(q) => format!("ok {:x}", free_weight_of(&q)),
+        Err(class) => class.into(),
+    }
+}
+
+macro_rules! new_dispatch {
+    ([$(($S:ty, $ss:literal)),*], $bp:tt) => {
+        fn dispatch_new(sym: &str, b: u32, p: u32, min: i128, max: i128) -> Option<String> {
+            $( if sym == $ss { return new_dispatch!(@bp $S, b, p, min, max, $bp); } )*
+            None
+        }
+    };
+    (@bp $S:ty, $b:ident, $p:ident, $min:ident, $max:ident, [$(($Pr:ty, $P:literal)),*]) => {{
+        $( if $b == <$Pr>::BITS as u32 && $p == $P { return Some(new_impl::<$S, $Pr, $P>($min, $max)); } )*
+        None
+    }};
+}
+new_dispatch!(
+    [(u8, "u8"), (i8, "i8"), (u16, "u16"), (i16, "i16"), (u32, "u32"), (i32, "i32"), (u64, "u64"), (i64, "i64")],
+    [(u8, 1), (u8, 4), (u8, 8), (u16, 8), (u16, 12), (u16, 16), (u32, 12), (u32, 24), (u32, 32)]
+);
+pub const NEW_SYMS: &[&str] = &["u8", "i8", "u16", "i16", "u32", "i32", "u64", "i64"];
+
+fn parse_leaky_header(head: &[&str]) -> Option<LeakySpec> {
+    // quant.leaky sym B P min max hint <dist…> <mode…>
+    if head.len() < 9 {
+        return None;
+    }
+    let sym = sym_static(head[1])?;
+    let b = parse_hex(head[2])? as u32;
+    let p = parse_hex(head[3])? as u32;
+    let min = parse_sym(sym, head[4])?;
+    let max = parse_sym(sym, head[5])?;
+    let hint = head[6];
+    let base = Base::parse(&head[7..10.min(head.len())])?;
+    let mode = HintMode::parse(hint, &head[10.min(head.len())..])?;
+    Some(LeakySpec { sym, b, p, min, max, base, hint: mode })
+}
+
+fn parse_lop(sym: &str, seg: &[&str]) -> Option<LOp> {
+    Some(match seg {
+        ["full", _rec] => LOp::Full,
+        ["enc", s, _rec] => LOp::Enc(parse_sym(sym, s)?),
+        ["dec", q, _inv, _rec] => LOp::Dec(parse_hex(q)?),
+        ["table", _rec] => LOp::Table,
+        ["sweep", lo, hi, st] => LOp::Sweep(parse_hex(lo)?, parse_hex(hi)?, parse_hex(st)?),
+        _ => return None,
+    })
+}
+
+fn leaky_line_text(spec: &LeakySpec, ops: &[LOp], toks: &[(String, String)]) -> String {
+    let (h, mode) = spec.hint.tokens();
+    let mut line = format!(
+        "quant.leaky {} {:x} {:x} {} {} {} {} {}",
+        spec.sym,
+        spec.b,
+        spec.p,
+        sym_hex(spec.sym, spec.min),
+        sym_hex(spec.sym, spec.max),
+        h,
+        spec.base.tokens(),
+        mode
+    );
+    for (i, op) in ops.iter().enumerate() {
+        let t = toks.get(i).map(|x| x.1.as_str()).unwrap_or("-");
+        let t = if t.is_empty() { "-" } else { t };
+        line.push_str(" | ");
+        match op {
+            LOp::Full => line.push_str(&format!("full {}", t)),
+            LOp::Enc(s) => line.push_str(&format!("enc {} {}", sym_hex(spec.sym, *s), t)),
+            LOp::Dec(q) => {
+                let t = if t == "-" { "- -" } else { t };
+                line.push_str(&format!("dec {:x} {}", q, t))
+            }
+            LOp::Table => line.push_str(&format!("table {}", t)),
+            LOp::Sweep(lo, hi, st) => line.push_str(&format!("sweep {:x} {:x} {:x}", lo, hi, st)),
+        }
+    }
+    line
+}
+
+// ---------------------------------------------------------------------------------------
+// run
+
+pub fn run(segs: &[Vec<&str>]) -> String {
+    let head = &segs[0];
+    let r: Option<String> = (|| match head.as_slice() {
+        ["quant.fast", ctor, f, b, p, norm, tbl] if segs.len() == 1 => {
+            let (b, p) = (parse_hex(b)? as u32, parse_hex(p)? as u32);
+            let norm = parse_opt_hex(norm)?;
+            let tbl = parse_list(tbl)?;
+            if p == 0 || p > b {
+                return None;
+            }
+            match *ctor {
+                "lkc" | "lknc" => dispatch_fast_lookup(f, b, p, ctor, &tbl, norm).or(Some("unsupported".into())),
+                _ => dispatch_fast(f, b, p, ctor, &tbl, norm).or(Some("unsupported".into())),
+            }
+        }
+        ["quant.perfect", f, b, p, tbl, w] if segs.len() == 1 => {
+            let (b, p) = (parse_hex(b)? as u32, parse_hex(p)? as u32);
+            if p == 0 || p > b {
+                return None;
+            }
+            dispatch_perfect(f, b, p, &parse_list(tbl)?, &parse_list(w)?).or(Some("unsupported".into()))
+        }
+        ["quant.lazy", f, b, p, norm, tbl] => {
+            let (b, p) = (parse_hex(b)? as u32, parse_hex(p)? as u32);
+            if p == 0 || p > b {
+                return None;
+            }
+            let ops: Vec<Option<LazyOp>> = segs[1..].iter().map(|s| parse_lazy_op(s)).collect();
+            dispatch_lazy(f, b, p, &parse_list(tbl)?, parse_opt_hex(norm)?, &ops).or(Some("unsupported".into()))
+        }
+        ["quant.new", sym, b, p, mn, mx] if segs.len() == 1 => {
+            let (b, p) = (parse_hex(b)? as u32, parse_hex(p)? as u32);
+            if p == 0 || p > b {
+                return None;
+            }
+            dispatch_new(sym, b, p, parse_sym(sym, mn)?, parse_sym(sym, mx)?).or(Some("unsupported".into()))
+        }
+        h if h.first() == Some(&"quant.leaky") => {
+            let spec = parse_leaky_header(h)?;
+            if spec.p == 0 || spec.p > spec.b {
+                return None;
+            }
+            let ops: Vec<Option<LOp>> = segs[1..].iter().map(|s| parse_lop(spec.sym, s)).collect();
+            let (init, outs) = dispatch_leaky(&spec, &ops)?;
+            let mut v = vec![init];
+            v.extend(outs.into_iter().map(|x| x.0));
+            Some(v.join(" | "))
+        }
+        _ => None,
+    })();
+    r.unwrap_or_else(|| "bad-op".into())
+}
+
+// ---------------------------------------------------------------------------------------
+// generators
+
+fn pick_bp(rng: &mut Rng, bps: &[(u32, &[u32])]) -> (u32, u32) {
+    let (b, ps) = rng.pick(bps);
+    (*b, *rng.pick(ps))
+}
+
+/// a random float table (as `f64` values; converted to the target type by the caller).
+/// Families: uniform, huge dynamic range, zeros, denormals, big head + tiny tail, …
+pub fn gen_weights(rng: &mut Rng, n: usize, is32: bool) -> Vec<f64> {
+    let fam = rng.next() % 12;
+    let tiny = if is32 { f32::MIN_POSITIVE as f64 } else { f64::MIN_POSITIVE };
+    let exp_range: i32 = if is32 { 120 } else { 1000 };
+    let unit = |r: &mut Rng| (r.next() >> 11) as f64 / (1u64 << 53) as f64;
+    let mut v: Vec<f64> = (0..n)
+        .map(|i| match fam {
+            0 | 1 => unit(rng),
+            2 => unit(rng) * 100.0,
+            3 => {
+                // huge dynamic range
+                let e = (rng.next() % (2 * exp_range as u64)) as i32 - exp_range;
+                (1.0 + unit(rng)) * 2f64.powi(e)
+            }
+            4 => {
+                if rng.chance(1, 2) {
+                    0.0
+                } else {
+                    unit(rng)
+                }
+            }
+            5 => tiny * (rng.next() % 8) as f64 / 4.0, // denormals and zeros
+            6 => {
+                // big head, tail below float resolution (the D4 family)
+                if i < n / 2 {
+                    1.0 + 100.0 * unit(rng)
+                } else if rng.chance(1, 2) {
+                    0.0
+                } else {
+                    unit(rng) * 1e-9
+                }
+            }
+            7 => {
+                // geometric decay
+                0.5f64.powi(i as i32 * (1 + (rng.0 % 7) as i32))
+            }
+            8 => 1.0, // exactly uniform
+            9 => {
+                if i == (rng.0 % n.max(1) as u64) as usize {
+                    1e30
+                } else {
+                    unit(rng) * 1e-30
+                }
+            }
+            10 => (rng.next() % 4) as f64, // small integers incl. zero
+            _ => {
+                let e = (rng.next() % 60) as i32 - 30;
+                unit(rng) * 2f64.powi(e)
+            }
+        })
+        .collect();
+    // tail zero (D4 reproducer shape)
+    if n > 0 && rng.chance(1, 6) {
+        *v.last_mut().unwrap() = 0.0;
+    }
+    v
+}
+
+/// occasionally corrupt a table with an invalid entry
+fn corrupt(rng: &mut Rng, v: &mut Vec<f64>) -> bool {
+    if v.is_empty() || !rng.chance(1, 7) {
+        return false;
+    }
+    let i = (rng.next() % v.len() as u64) as usize;
+    v[i] = match rng.next() % 8 {
+        0 => -v[i].abs().max(0.5),
+        1 => f64::NAN,
+        2 => f64::INFINITY,
+        3 => f64::NEG_INFINITY,
+        4 => -0.0,
+        5 => -1e-300,
+        6 => -f64::MIN_POSITIVE / 2.0,
+        _ => -1.0,
+    };
+    true
+}
+
+fn to_bits_list(v: &[f64], is32: bool) -> Vec<u128> {
+    v.iter().map(|&x| if is32 { (x as f32).to_bits() as u128 } else { x.to_bits() as u128 }).collect()
+}
+
+fn gen_len(rng: &mut Rng, p: u32) -> usize {
+    let cap = if p >= 20 { 1usize << 20 } else { 1usize << p };
+    match rng.next() % 16 {
+        0 => 0,
+        1 => 1,
+        2 => 2,
+        3 if p <= 8 => cap.saturating_sub(1),     // 2^P - 1: rejected
+        4 if p <= 8 => cap.saturating_sub(2),     // 2^P - 2: the largest accepted
+        5 if p <= 8 => cap,                       // 2^P
+        6 if p <= 8 => cap + 1,
+        7 => 2 + (rng.next() % 200) as usize,
+        _ => 2 + (rng.next() % 12) as usize,
+    }
+}
+
+fn gen_norm(rng: &mut Rng, v: &[f64], is32: bool) -> String {
+    let sum32 = v.iter().map(|&x| x as f32).sum::<f32>();
+    let sum64 = v.iter().sum::<f64>();
+    let bits = |x: f64| -> String {
+        if is32 {
+            format!("{:x}", (x as f32).to_bits())
+        } else {
+            format!("{:x}", x.to_bits())
+        }
+    };
+    let exact = if is32 { format!("{:x}", sum32.to_bits()) } else { format!("{:x}", sum64.to_bits()) };
+    match rng.next() % 24 {
+        0..=13 => "-".into(),
+        14..=16 => exact,
+        17 => bits(sum64 * 0.999),  // slightly too small: overshoot, clamped
+        18 => bits(sum64 * 1.5),
+        19 => bits(sum64 * 1e-3),   // far too small: everything saturates
+        20 => bits(0.0),
+        21 => bits(*rng.pick(&[f64::NAN, f64::INFINITY, -1.0, f64::NEG_INFINITY])),
+        22 => bits(if is32 { 1e-45 } else { 5e-324 }), // denormal
+        _ => bits(if is32 { 1e-37 } else { 1e-300 }),   // tiny normal: scale overflows to inf
+    }
+}
+
+fn gen_fast_line(rng: &mut Rng) -> String {
+    let is32 = rng.chance(1, 2);
+    let lookup = rng.chance(1, 6);
+    let (b, p) = if lookup { pick_bp(rng, LOOKUP_BP) } else { pick_bp(rng, FP_BP) };
+    let ctor = if lookup { *rng.pick(&["lkc", "lknc"]) } else { *rng.pick(&["cont", "cont", "ncenc", "ncdec"]) };
+    let n = gen_len(rng, p);
+    let mut v = gen_weights(rng, n, is32);
+    corrupt(rng, &mut v);
+    let norm = gen_norm(rng, &v, is32);
+    format!("quant.fast {} {} {:x} {:x} {} {}", ctor, if is32 { "f32" } else { "f64" }, b, p, norm, show_list(to_bits_list(&v, is32)))
+}
+
+fn gen_perfect_line(rng: &mut Rng) -> String {
+    let is32 = rng.chance(1, 2);
+    let (b, p) = pick_bp(rng, PERFECT_BP);
+    let n = match rng.next() % 10 {
+        0 => 0,
+        1 => 1,
+        2 if p <= 8 => (1usize << p) - (rng.next() % 3) as usize,
+        _ => 2 + (rng.next() % 10) as usize,
+    };
+    let n = n.min(if p <= 3 { 7 } else { 300 });
+    let mut v = gen_weights(rng, n, is32);
+    corrupt(rng, &mut v);
+    let tbl = to_bits_list(&v, is32);
+    let f = if is32 { "f32" } else { "f64" };
+    // the generator observes the implementation's output; the model only checks its contract
+    let w = guarded(|| dispatch_perfect_weights(f, b, p, &tbl)).ok().flatten().flatten().unwrap_or_default();
+    format!("quant.perfect {} {:x} {:x} {} {}", f, b, p, show_list(tbl), show_list(w))
+}
+
+fn gen_lazy_line(rng: &mut Rng, sweep: bool) -> String {
+    let is32 = rng.chance(1, 2);
+    let (b, p) = pick_bp(rng, FP_BP);
+    let n = gen_len(rng, p).min(if sweep { 40 } else { 300 });
+    let mut v = gen_weights(rng, n, is32);
+    corrupt(rng, &mut v);
+    let norm = gen_norm(rng, &v, is32);
+    let mut line = format!("quant.lazy {} {:x} {:x} {} {}", if is32 { "f32" } else { "f64" }, b, p, norm, show_list(to_bits_list(&v, is32)));
+    let total = pow2(p);
+    let qmax = total.wrapping_sub(1) & (pow2(b).wrapping_sub(1));
+    let qmax = if p == b { pow2(b).wrapping_sub(1) } else { total - 1 };
+    line.push_str(" | table");
+    let k = 3 + rng.next() % 8;
+    for _ in 0..k {
+        match rng.next() % 8 {
+            0..=2 => {
+                let s = match rng.next() % 8 {
+                    0 => 0,
+                    1 => n.saturating_sub(1) as u128,
+                    2 => n as u128,
+                    3 => n as u128 + 1,
+                    4 => *rng.pick(&[0xffffu128, 0x10000, 0x10001, 0xffff_ffff, 0x1_0000_0000, 0x1_0000_0001, u64::MAX as u128]),
+                    _ => rng.below(n.max(1) as u128),
+                };
+                line.push_str(&format!(" | enc {:x}", s));
+            }
+            _ => {
+                let q = match rng.next() % 8 {
+                    0 => 0,
+                    1 => qmax,
+                    2 => qmax.saturating_sub(1),
+                    3 => rng.below(n as u128 + 2).min(qmax),
+                    4 => qmax - rng.below(n as u128 + 2).min(qmax),
+                    _ => rng.below(qmax + 1),
+                };
+                line.push_str(&format!(" | dec {:x}", q));
+            }
+        }
+    }
+    if sweep {
+        if p <= 12 {
+            line.push_str(&format!(" | sweep 0 {:x} 1", qmax));
+        } else {
+            let stride = (qmax / 997).max(1);
+            line.push_str(&format!(" | sweep {:x} {:x} {:x}", rng.below(stride), qmax, stride));
+        }
+    }
+    line
+}
+
+fn gen_new_line(rng: &mut Rng) -> String {
+    let sym = *rng.pick(NEW_SYMS);
+    let (b, p) = pick_bp(rng, LEAKY_BP);
+    let (lo, hi) = sym_range(sym);
+    let span = (hi - lo) as u128;
+    let total = pow2(p);
+    let size_m1: u128 = match rng.next() % 12 {
+        0 => 0,
+        1 => 1,
+        2 => total - 2,
+        3 => total - 1,
+        4 => total,
+        5 => total + 1,
+        6 => pow2(b) + rng.below(8),         // D10: truncates to a small number
+        7 => pow2(b) * 2 + rng.below(8),
+        8 => span,                            // the full type
+        9 => span / 2 + 1 + rng.below(4),     // signed: spans more than half the type
+        10 => pow2(b) - 1,
+        _ => rng.below(total + 2),
+    };
+    let size_m1 = size_m1.min(span);
+    let min = match rng.next() % 4 {
+        0 => lo,
+        1 => hi - size_m1 as i128,
+        _ => lo + rng.below(span - size_m1 + 1) as i128,
+    };
+    let (min, max) = if rng.chance(1, 16) { (min + size_m1 as i128, min) } else { (min, min + size_m1 as i128) };
+    format!("quant.new {} {:x} {:x} {} {}", sym, b, p, sym_hex(sym, min), sym_hex(sym, max))
+}
+
+/// a quantised model: distribution family × scale over hundreds of orders of magnitude ×
+/// support cut on either side × symbol type × (B, P) × hint mode
+pub fn gen_leaky_spec(rng: &mut Rng, max_support: u128) -> LeakySpec {
+    let sym = *rng.pick(LEAKY_SYMS);
+    let (b, p) = pick_bp(rng, LEAKY_BP);
+    let (lo, hi) = sym_range(sym);
+    let span = (hi - lo) as u128;
+    let total = pow2(p);
+    let size_m1 = match rng.next() % 8 {
+        0 => 1,
+        1 => total - 1,
+        2 => span,
+        3 => span / 2 + 1 + rng.below(5),
+        _ => 1 + rng.below(300),
+    }
+    .min(total - 1)
+    .min(span)
+    .min(max_support.max(2) - 1)
+    .max(1);
+    let min = match rng.next() % 5 {
+        0 => lo,
+        1 => hi - size_m1 as i128,
+        2 if lo < 0 => (-(size_m1 as i128) / 2).max(lo).min(hi - size_m1 as i128),
+        _ => lo + rng.below(span - size_m1 + 1) as i128,
+    };
+    let max = min + size_m1 as i128;
+    let unit = |r: &mut Rng| (r.next() >> 11) as f64 / (1u64 << 53) as f64;
+    // location: inside, at an edge, half-integers, or far outside the support
+    let loc = match rng.next() % 8 {
+        0 => min as f64 - 0.5,
+        1 => max as f64 + 0.5,
+        2 => min as f64 - 1e3 * unit(rng),
+        3 => max as f64 + 1e3 * unit(rng),
+        4 => (min as f64 + max as f64) / 2.0 + 0.5,
+        5 => *rng.pick(&[-1e9, 1e9, -1e300, 1e300, 0.0]),
+        _ => min as f64 + unit(rng) * size_m1 as f64,
+    };
+    // scale over hundreds of orders of magnitude
+    let scale = match rng.next() % 6 {
+        0 => 10f64.powi((rng.next() % 600) as i32 - 300),
+        1 => 1e-40,
+        2 => unit(rng) * 3.0 + 0.01,
+        3 => size_m1 as f64 * (0.05 + unit(rng)),
+        4 => 1e6 * (1.0 + unit(rng)),
+        _ => 0.1 + 10.0 * unit(rng),
+    };
+    let scale = if scale > 0.0 && scale.is_finite() { scale } else { 1.0 };
+    let base = match rng.next() % 9 {
+        0 | 1 => Base::Gauss(loc, scale),
+        2 | 3 => Base::Cauchy(loc, scale),
+        4 | 5 => Base::Laplace(loc, scale),
+        6 | 7 => {
+            // step-shaped CDF with breakpoints at arbitrary places
+            let k = 1 + (rng.next() % 6) as usize;
+            let mut xs: Vec<f64> = (0..k)
+                .map(|_| match rng.next() % 4 {
+                    0 => (min + rng.below(size_m1 + 1) as i128) as f64 - 0.5,
+                    1 => (min + rng.below(size_m1 + 1) as i128) as f64,
+                    2 => min as f64 - 10.0 * unit(rng),
+                    _ => min as f64 + unit(rng) * (size_m1 as f64 + 10.0),
+                })
+                .collect();
+            xs.sort_by(|a, b| a.partial_cmp(b).unwrap());
+            let mut cs: Vec<f64> = (0..=k)
+                .map(|_| match rng.next() % 5 {
+                    0 => 0.0,
+                    1 => 1.0,
+                    _ => unit(rng),
+                })
+                .collect();
+            cs.sort_by(|a, b| a.partial_cmp(b).unwrap());
+            Base::Step(xs, cs)
+        }
+        _ => {
+            if min >= 0 && max <= 100_000 {
+                let n = (max as usize).max(1);
+                let pp = *rng.pick(&[0.1, 0.4, 0.9, 0.5]);
+                let n = if n >= 1000 { n } else { n };
+                Base::Binom(n, if n >= 1000 { pp } else { *rng.pick(&[1e-30, 1e-10, 0.1, 0.4, 0.9]) })
+            } else {
+                Base::Gauss(loc, scale)
+            }
+        }
+    };
+    let hint = match rng.next() % 12 {
+        0..=3 => HintMode::True,
+        4 | 5 => HintMode::Noisy(rng.next(), *rng.pick(&[0.6, 3.0, 100.0, 1e5, 1e12])),
+        _ => {
+            if base.is_u() {
+                HintMode::ConstU(match rng.next() % 6 {
+                    0 => 0,
+                    1 => usize::MAX,
+                    2 => max as usize,
+                    3 => 1usize << 40,
+                    4 => (1usize << 31) + 5,
+                    _ => (rng.next() % 100_000) as usize,
+                })
+            } else {
+                HintMode::ConstF(match rng.next() % 10 {
+                    0 => 1e9,
+                    1 => -1e9,
+                    2 => f64::NAN,
+                    3 => f64::INFINITY,
+                    4 => f64::NEG_INFINITY,
+                    5 => min as f64,
+                    6 => max as f64,
+                    7 => (min as f64 + max as f64) / 2.0,
+                    8 => 0.0,
+                    _ => lo as f64 + unit(rng) * span as f64,
+                })
+            }
+        }
+    };
+    LeakySpec { sym, b, p, min, max, base, hint }
+}
+
+fn gen_leaky_line(rng: &mut Rng, sweep: bool) -> Option<String> {
+    let mut spec = gen_leaky_spec(rng, if sweep { 300 } else { 1 << 20 });
+    if sweep && !spec.hint.is_const() {
+        spec.hint = if spec.base.is_u() { HintMode::ConstU((rng.next() % 400) as usize) } else { HintMode::ConstF(*rng.pick(&[1e9, -1e9, f64::NAN, 0.0, 77.0])) };
+    }
+    let size = (spec.max - spec.min) as u128 + 1;
+    let total = pow2(spec.p);
+    let qmax = total - 1;
+    let (tlo, thi) = sym_range(spec.sym);
+    let mut ops: Vec<LOp> = Vec::new();
+    let small = size <= 600;
+    if small && (sweep || rng.chance(1, 2)) {
+        ops.push(LOp::Full);
+    }
+    if small && rng.chance(1, 2) {
+        ops.push(LOp::Table);
+    }
+    // first pass: find some cumulative boundaries so that quantiles can be boundary-directed
+    let k = 2 + rng.next() % 6;
+    for _ in 0..k {
+        match rng.next() % 8 {
+            0..=2 => {
+                let s = match rng.next() % 8 {
+                    0 => spec.min,
+                    1 => spec.max,
+                    2 => spec.min - 1,
+                    3 => spec.max + 1,
+                    4 => tlo,
+                    5 => thi,
+                    _ => spec.min + rng.below(size) as i128,
+                };
+                ops.push(LOp::Enc(s.clamp(tlo, thi)));
+            }
+            _ => {
+                let q = match rng.next() % 8 {
+                    0 => 0,
+                    1 => qmax,
+                    2 => qmax / 2,
+                    3 => rng.below(size.min(qmax) + 1),
+                    4 => qmax - rng.below(size.min(qmax) + 1),
+                    _ => rng.below(qmax + 1),
+                };
+                ops.push(LOp::Dec(q));
+            }
+        }
+    }
+    if sweep {
+        if spec.p <= 12 {
+            ops.push(LOp::Sweep(0, qmax, 1));
+        } else {
+            let stride = (qmax / 499).max(1);
+            ops.push(LOp::Sweep(rng.below(stride), qmax, stride));
+        }
+    }
+    let oo: Vec<Option<LOp>> = ops.iter().cloned().map(Some).collect();
+    let (init, outs) = dispatch_leaky(&spec, &oo)?;
+    // boundary-directed quantiles: decode at c-1, c, c+p-1, c+p of an encoded symbol
+    let mut extra: Vec<LOp> = Vec::new();
+    for (op, (out, _)) in ops.iter().zip(outs.iter()) {
+        if let LOp::Enc(_) = op {
+            let parts: Vec<&str> = out.split(' ').collect();
+            if parts.len() == 2 {
+                if let (Some(c), Some(pr)) = (parse_hex(parts[0]), parse_hex(parts[1])) {
+                    for q in [c.wrapping_sub(1), c, c + pr - 1, c + pr] {
+                        if q <= qmax && rng.chance(1, 2) {
+                            extra.push(LOp::Dec(q));
+                        }
+                    }
+                }
+            }
+        }
+    }
+    if extra.is_empty() || outs.len() < ops.len() {
+        return Some(leaky_line_text(&spec, &ops[..outs.len().min(ops.len())], &outs));
+    }
+    let mut all = ops.clone();
+    // keep a trailing sweep last
+    let tail = if sweep { all.pop() } else { None };
+    all.extend(extra);
+    if let Some(t) = tail {
+        all.push(t);
+    }
+    let oo: Vec<Option<LOp>> = all.iter().cloned().map(Some).collect();
+    let (_, outs) = dispatch_leaky(&spec, &oo)?;
+    Some(leaky_line_text(&spec, &all[..outs.len().min(all.len())], &outs))
+}
+
+pub fn gen(rng: &mut Rng, tier: &str, out: &mut Vec<String>) {
+    let k = if tier == "thorough" { 20 } else { 1 };
+    // documented / design reproducers first
+    out.push("quant.fast cont f32 20 18 - 428d2ec2,3ee93b54,42466cd6,3ee98848,0".into()); // D4, P=24
+    out.push("quant.fast cont f32 20 1c - 428d2ec2,3ee93b54,42466cd6,3ee98848,0".into()); // D4, P=28
+    out.push("quant.fast cont f32 20 20 - 428d2ec2,3ee93b54,42466cd6,3ee98848,0".into()); // D4, P=32
+    out.push("quant.lazy f32 20 18 - 428d2ec2,3ee93b54,42466cd6,3ee98848,0 | table | dec ffffff | dec fffffe | enc 4".into());
+    out.push("quant.fast cont f64 20 18 - 3ff0000000000000,bfe0000000000000,3ff0000000000000".into()); // D14
+    out.push("quant.fast cont f64 20 18 4000000000000000 3ff0000000000000,7ff8000000000000,3ff0000000000000".into()); // D14 NaN
+    out.push("quant.new i32 10 c 0 10005".into()); // D10
+    for _ in 0..1500 * k {
+        out.push(gen_fast_line(rng));
+    }
+    for _ in 0..300 * k {
+        out.push(gen_perfect_line(rng));
+    }
+    for _ in 0..700 * k {
+        out.push(gen_lazy_line(rng, false));
+    }
+    for _ in 0..60 * k {
+        out.push(gen_lazy_line(rng, true));
+    }
+    for _ in 0..400 * k {
+        out.push(gen_new_line(rng));
+    }
+    for _ in 0..1200 * k {
+        if let Some(l) = gen_leaky_line(rng, false) {
+            out.push(l);
+        }
+    }
+    for _ in 0..80 * k {
+        if let Some(l) = gen_leaky_line(rng, true) {
+            out.push(l);
+        }
+    }
+}
 
 pub fn oracle(_rng: &mut Rng, _tier: &str, _rep: &mut Report) {}
